@@ -406,6 +406,7 @@ func (e *Engine) resetGlobals() {
 // ---- parallel driver ----
 
 type RunOpts struct {
+	SiteKnown []KnownFinding
 	Workers   int
 	SolverBin string
 	TimeoutMs int
@@ -443,6 +444,7 @@ func RunAll(L *Loaded, cfgs []*HarnessCfg, opts RunOpts) []*HarnessResult {
 				e = NewEngine(L, opts.SolverBin, opts.TimeoutMs)
 				e.seed = opts.Seed
 				e.knownIDs = opts.Known
+				e.siteKnown = opts.SiteKnown
 				e.debug = opts.Debug
 				e.symPtrMax = 64
 				e.initPkgs = opts.InitPkgs
